@@ -147,7 +147,7 @@ def run(ctx):
                 "messages, sizes 0..8, cycle 0 (default) or 1..3600000, baud in {0,125k,500k,1M,1,random,negative}, default cycle in "
                 "{-1,0,1,100,random,min int,...}); families: mixed, slow messages whose rates all differ by < 1 bit/s, neighbouring "
                 "cycle times, default-cycle ties, fast messages; every accepted bus is re-run with one message enlarged and with one "
-                "cycle time shortened, every fifth bus is run twice (another map order). Every float64 is converted to an exact "
+                "cycle time shortened, every fifth bus is run twice (another map order); history phase (not counted in evaluations, hist history/*): on every built bus of a defined type three public mutator steps (UpdateSizeByte accepted / refused above 8 / negative / too small for the signals / same size, SetCycleTime) each followed by a call checked against the sizes and cycle times read back through the getters (kinds history-*). Every float64 is converted to an exact "
                 "rational and compared with the Coq model (load, per-key rate and share, rates position by position) within "
                 "max(n,1)*2^-50 relative, and the property predicates are evaluated on the implementation's own numbers. "
                 "non-trivial = distinct bus with at least two different exact rates, non-zero baud rate and positive default",
